@@ -50,6 +50,8 @@ def check(run):
     R.rule('C09.socknull', 'self._sock is written only by __init__, run() (publication), _close_socket (after close) and '
                            'close(); _close_socket never raises and nulls _sock on every path', 4)
     R.rule('C09.graceful', 'graceful=True only on the normal-exit path; EOF while active is a failure', 4)
+    from .common import event_fields as _event_fields
+    _event_fields(R, 'C09.graceful', ['Disconnected', 'ConnectFail'])      # graceful / reason as constructed
     from .common import maybe_unbound
     maybe_unbound(R, 'C09.sites')
     sites(R)
